@@ -331,10 +331,12 @@ class GroupBase:
             if all(item == [default] for item in idx_cross_mdls):
                 out_pre.append([default])
                 continue
+            # collect the matches from every model of the group (not only the first model that has one)
+            matches = []
             for item in idx_cross_mdls:
                 if item != [default]:
-                    out_pre.append(item)
-                    break
+                    matches.extend(item)
+            out_pre.append(matches)
 
         if allow_all:
             out = out_pre
